@@ -18,8 +18,11 @@ from . import C16 as _c16
 
 ALL = ("rejects", "post", "dtype", "shape", "stateless")
 CHECKS = [build_check("C11", SPECS[k], clauses=ALL) for k in
-          ("Mean", "Sum", "Constant", "Random", "IMTLG", "ConFIG.default", "ConFIG.pref", "AlignedMTL.default", "AlignedMTL.pref")]
+          ("Mean", "Sum", "Constant", "Random", "IMTLG", "ConFIG.default", "ConFIG.pref", "AlignedMTL.default", "AlignedMTL.pref",
+           "PCGrad", "CAGrad", "GradDrop.default", "GradDrop.leak")]
 CHECKS += list(_c03.CHECKS) + list(_c16.CHECKS)
+from .C18 import CHECKS as _c18  # noqa: E402
+CHECKS += [c for c in _c18 if c.name == "MGDA"]
 
 
 def imtlg_guard_scale_free(H):
